@@ -6,6 +6,7 @@ package explore
 
 import (
 	"fmt"
+	"os"
 	"sort"
 	"strings"
 	"time"
@@ -87,6 +88,7 @@ type Result struct {
 	MaxPoints      int
 	WithSwitch     int // executions with >= 1 context switch inside an operation
 	Restarts       int
+	Redraws        int // executions discarded because a random choice of the code did not match the schedule
 	Internal       string
 }
 
@@ -118,6 +120,22 @@ func RunOnce(sc *Scenario, prefix []int, red *vcore.Reduction) (*vcore.Sched, an
 	}
 	s.Run(sc.Threads(st)...)
 	return s, st
+}
+
+// runConforming is RunOnce repeated while the code under test drew, at a random choice of
+// its own (a Go select with several ready arms), another arm than the schedule asks for.
+func runConforming(sc *Scenario, prefix []int, red *vcore.Reduction, res *Result) (*vcore.Sched, any) {
+	for try := 0; ; try++ {
+		s, st := RunOnce(sc, prefix, red)
+		if !s.Misdrawn {
+			return s, st
+		}
+		res.Redraws++
+		if try >= 400 {
+			s.Diverged = "the code's random choice never drew the arm asked for in 400 runs"
+			return s, st
+		}
+	}
 }
 
 func judge(sc *Scenario, s *vcore.Sched, st any) (sig, detail, obs string) {
@@ -153,7 +171,7 @@ func Explore(sc *Scenario, maxBound, maxExecs int, deadline time.Time) *Result {
 				complete = false
 				return false
 			}
-			s, st := RunOnce(sc, prefix, red)
+			s, st := runConforming(sc, prefix, red, res)
 			res.Execs++
 			if red.Grew {
 				return false
@@ -174,15 +192,18 @@ func Explore(sc *Scenario, maxBound, maxExecs int, deadline time.Time) *Result {
 				full := choicesOf(s)
 				// a failing schedule must fail again when replayed. The code under test may itself
 				// choose at random (Go's select picks among ready cases), so a violation that depends on
-				// such a choice reproduces only sometimes: it is accepted when one of up to 8 replays
+				// such a choice reproduces only sometimes: it is accepted when one of up to 48 replays
 				// shows the same signature; if none does, the failure is the harness's (internal error)
 				reproduced := false
 				last := ""
-				for try := 0; try < 8 && !reproduced; try++ {
-					s2, st2 := RunOnce(sc, full, red)
+				for try := 0; try < 48 && !reproduced; try++ {
+					s2, st2 := runConforming(sc, full, red, res)
 					sig2, _, _ := judge(sc, s2, st2)
 					res.Execs++
 					last = sig2
+					if os.Getenv("VERIF_DEBUG_REPLAY") != "" {
+						fmt.Fprintf(os.Stderr, "REPLAY try=%d sig=%q misdrawn=%v diverged=%q\n  first : %s\n  replay: %s\n", try, sig2, s2.Misdrawn, s2.Diverged, RenderSchedule(s), RenderSchedule(s2))
+					}
 					reproduced = sig2 == sig
 				}
 				if !reproduced {
@@ -249,6 +270,10 @@ func RenderSchedule(s *vcore.Sched) string {
 		mark := ""
 		if p.Chosen > 0 && p.CurEnabled && !p.Free {
 			mark = "!"
+		}
+		if strings.HasPrefix(p.Label, "choose:") {
+			parts = append(parts, fmt.Sprintf("T%d@%s=%d", p.Cur, p.Label, p.Chosen))
+			continue
 		}
 		parts = append(parts, fmt.Sprintf("T%d@%s->T%d%s", p.Cur, p.Label, p.Enabled[p.Chosen], mark))
 	}
